@@ -15,6 +15,7 @@ import (
 	"net/http/httptest"
 	"net/url"
 	"runtime"
+	"strings"
 	"sync"
 	"sync/atomic"
 	"time"
@@ -46,6 +47,7 @@ type fakeAM struct {
 	started    atomic.Int64
 	inflight   atomic.Int64
 	overlap    atomic.Bool // two requests to this Alertmanager were in flight at the same time
+	byDrainer  map[int64]bool // alert id -> its request was issued from stop()'s drainQueue
 	lifetimes  int
 	children   [3][]prometheus.Counter
 }
@@ -98,6 +100,12 @@ func (w *world) do(ctx context.Context, client *http.Client, req *http.Request) 
 	}
 	defer am.inflight.Add(-1)
 	am.started.Add(int64(len(ids)))
+	fromDrain := calledFromDrain()
+	am.mu.Lock()
+	for _, id := range ids {
+		am.byDrainer[id] = fromDrain
+	}
+	am.mu.Unlock()
 	if w.gate != nil {
 		w.gate(am, ids)
 	}
@@ -114,6 +122,43 @@ func (w *world) do(ctx context.Context, client *http.Client, req *http.Request) 
 		client = http.DefaultClient
 	}
 	return client.Do(req.WithContext(ctx))
+}
+
+// calledFromDrain reports whether the current request is sent by sendLoop.drainQueue (the
+// goroutine inside stop()) rather than by the loop goroutine; used only to classify failures.
+func calledFromDrain() bool {
+	pc := make([]uintptr, 32)
+	n := runtime.Callers(2, pc)
+	fr := runtime.CallersFrames(pc[:n])
+	for {
+		f, more := fr.Next()
+		if strings.HasSuffix(f.Function, ".drainQueue") {
+			return true
+		}
+		if !more {
+			return false
+		}
+	}
+}
+
+// orderOKFor: for every sender, the given alerts restricted to that sender are in Send order.
+func orderOKFor(arrived []int64, survivors [][]int64) bool {
+	for _, sv := range survivors {
+		in := map[int64]bool{}
+		for _, x := range sv {
+			in[x] = true
+		}
+		var proj []int64
+		for _, x := range arrived {
+			if in[x] {
+				proj = append(proj, x)
+			}
+		}
+		if !subseq(proj, sv) {
+			return false
+		}
+	}
+	return true
 }
 
 func (w *world) capture() {
@@ -229,7 +274,7 @@ type concDesc struct {
 func newWorld(p *concParams, r *gen.Rand) *world {
 	w := &world{byHost: map[string]*fakeAM{}, tsets: make(chan map[string][]*targetgroup.Group), runRet: make(chan struct{})}
 	for i := 0; i < p.NAM; i++ {
-		am := &fakeAM{idx: i, r: gen.New(r.U64()), failPct: p.FailPct[i], connPct: p.ConnPct[i], latencyUs: p.LatUs[i]}
+		am := &fakeAM{idx: i, byDrainer: map[int64]bool{}, r: gen.New(r.U64()), failPct: p.FailPct[i], connPct: p.ConnPct[i], latencyUs: p.LatUs[i]}
 		am.srv = httptest.NewServer(http.HandlerFunc(am.handler))
 		u, _ := url.Parse(am.srv.URL)
 		am.host = u.Host
@@ -498,22 +543,19 @@ func runConc(idBase *int, seed uint64, idx int, p *concParams, cf *gallina.CaseF
 			tot = total
 		}
 		// Go-side evaluation of the order predicate, only to choose the shape key
-		orderOK := true
-		for _, sv := range survivors {
-			in := map[int64]bool{}
-			for _, x := range sv {
-				in[x] = true
-			}
-			var proj []int64
-			for _, x := range arrived {
-				if in[x] {
-					proj = append(proj, x)
-				}
-			}
-			if !subseq(proj, sv) {
-				orderOK = false
+		orderOK := orderOKFor(arrived, survivors)
+		var arrL, arrD []int64
+		am.mu.Lock()
+		for _, x := range arrived {
+			if am.byDrainer[x] {
+				arrD = append(arrD, x)
+			} else {
+				arrL = append(arrL, x)
 			}
 		}
+		am.mu.Unlock()
+		// only a loop-goroutine request and drainQueue requests are out of order with each other
+		crossOnly := len(arrD) > 0 && len(arrL) > 0 && orderOKFor(arrL, survivors) && orderOKFor(arrD, survivors)
 		class := "conc-nodrain"
 		if p.Drain {
 			class = "conc-drain"
@@ -522,7 +564,7 @@ func runConc(idBase *int, seed uint64, idx int, p *concParams, cf *gallina.CaseF
 		if !orderOK {
 			shape = "order"
 			switch {
-			case p.Drain && am.overlap.Load():
+			case p.Drain && crossOnly:
 				// stop() was draining while another request to this Alertmanager was in flight
 				shape = "drain-overlap-reorder"
 			case am.lifetimes > 1 && am.overlap.Load():
@@ -632,9 +674,11 @@ func reproDrainOverlap(idBase *int, seed uint64, cf *gallina.CaseFile, meta *gal
 	shape := "conc-drain"
 	if !subseq(arrived, sv) {
 		shape = "order"
-		if am.overlap.Load() {
+		am.mu.Lock()
+		if am.byDrainer[100003] && !am.byDrainer[100001] {
 			shape = "drain-overlap-reorder"
 		}
+		am.mu.Unlock()
 		meta.Hit("repro-drain-overlap-reordered")
 	} else {
 		meta.Hit("repro-drain-overlap-in-order")
